@@ -51,5 +51,6 @@ func ConnectClient(client *mcp.Client, sc *ScriptConn, version string, caps stri
 func (c *ScriptConn) ResetWritten() {
 	c.mu.Lock()
 	c.written = nil
+	c.writeTimes = nil
 	c.mu.Unlock()
 }
